@@ -243,6 +243,25 @@ def range_obligations(pid, tier, seed):
     return {'obligations': obs, 'bounds': bounds}
 
 
+# ---------------------------------------------------------------------------
+# C19: Length
+
+def length_obligations(pid, tier, seed):
+    t = 120 if tier == 'quick' else 900
+    obs = [dict(id=pid + '/resolve', mod='h_length', fn='resolve', nk=0,
+                args=[('old', 'int'), ('da', 'int'), ('db', 'int'), ('dc', 'int')], params={}, timeout=t)]
+    for k in ((1, 2, 3) if tier == 'quick' else (1, 2, 3, 4)):
+        args = [('v0', 'int'), ('default', 'bool')]
+        pre = []
+        for i in range(k):
+            args += [('op%d' % i, 'int'), ('x%d' % i, 'int')]
+            pre.append('0 <= op%d < 6' % i)
+        obs.append(dict(id='%s/cell_k%d' % (pid, k), mod='h_length', fn='cell', nk=0, args=args, pre=pre,
+                        params={'k': k}, timeout=t))
+    return {'obligations': obs, 'bounds': {'integers': 'unbounded (z3 Int)', 'cell_sequence_length': [o['params'].get('k') for o in obs[1:]],
+                                           'cell_ops': ['set', 'change', '__call__', '__getstate__', '__setstate__', 'state round-trip into a live object']}}
+
+
 COMMON_ASSUME = [
     'key objects are observed by the containers only through rich comparison, identity and None-ness '
     '(true for the object-key templates; native-key families are covered by their own obligations where stated)',
@@ -292,5 +311,17 @@ PROPS = {
                    'PreviousBucket', 'BTrees._base: _Tree.keys/values/items/iter*/minKey/maxKey/_findbucket, _TreeItems, '
                    '_BucketBase._range/minKey/maxKey, Bucket.keys/values/items/iter*'],
         assumptions=COMMON_ASSUME,
+    ),
+    'C19': dict(
+        families=[],
+        gen=lambda tier, seed: length_obligations('C19', tier, seed),
+        explanation='BTrees.Length is executed symbolically with unbounded z3 integers: _p_resolveConflict(old, old+a, old+b) '
+                    '== old+a+b in both argument orders, on fresh and live objects, and folded over a third concurrent update, '
+                    'for ALL integers (linear integer arithmetic, no width bound); set/change/__call__/__getstate__/__setstate__ '
+                    'against an integer cell for every sequence of k calls whose kinds are solver-chosen and whose arguments are '
+                    'unbounded symbolic integers; at the end of every path the realised value is pickled (all protocols), '
+                    'copied and loaded into a live object.',
+        functions=['BTrees.Length.Length.__init__/__getstate__/__setstate__/set/change/__call__/_p_resolveConflict'],
+        assumptions=['pickle and copy are exercised on one solver-chosen witness per path (pickle realises symbols)'],
     ),
 }
